@@ -15,4 +15,4 @@ Definition toy_pstep (x : toy_sess) (o : toy_op) (p : N) : N := p.
 Definition toy_rejected (o : toy_op) : toy_obs := (false, 0%N).
 
 Definition toy_run (h : list (call toy_op)) : list (call toy_op * out toy_obs) :=
-  snd (run toy_sess toy_op toy_obs N toy_new toy_step toy_pstep toy_rejected {| live := []; settings := 0%N |} h).
+  snd (run toy_sess toy_op toy_obs N toy_new toy_step toy_pstep toy_rejected {| live := []; settings := 0%N; now := 1000%N |} h).
